@@ -23,7 +23,7 @@ dst = f"/verif/seeded/{a.prop}-{a.m}"
 os.makedirs(dst, exist_ok=True)
 shutil.copy(os.path.join(src, "patch.diff"), os.path.join(dst, "patch.diff"))
 for f in os.listdir(src):
-    if f.startswith("demo"):
+    if f.startswith("demo") or (f.endswith((".py", ".sh")) and os.path.isfile(os.path.join(src, f))):
         shutil.copy(os.path.join(src, f), os.path.join(dst, f))
 notes = ""
 if os.path.exists(os.path.join(src, "notes.md")):
